@@ -35,3 +35,21 @@ Fixpoint pairwise_disjoint (l : list (Z * Z)) : Prop :=
   | x :: tl => Forall (disjoint x) tl /\ pairwise_disjoint tl
   end.
 Definition pow2_size (s : Z) : Prop := s = 1 \/ s = 2 \/ s = 4 \/ s = 8.
+
+(* ---- ArrayMap.collect over class hierarchies ----
+   A program (or subprogram instance) has the classes of its MRO, most derived
+   first; each class declares (name, size) pairs.  Attribute lookup finds the
+   first declaration of a name; collect must reserve exactly one slot per name,
+   of that declaration's size. *)
+Fixpoint first_def (n : Z) (l : list (Z * Z)) : option Z :=
+  match l with
+  | [] => None
+  | (m, s) :: tl => if m =? n then Some s else first_def n tl
+  end.
+Fixpoint dedupe (seen : list Z) (l : list (Z * Z)) : list (Z * Z) :=
+  match l with
+  | [] => []
+  | (n, s) :: tl => if existsb (Z.eqb n) seen then dedupe seen tl else (n, s) :: dedupe (n :: seen) tl
+  end.
+(* the pinned tree reset `unique` for every class, so nothing was ever removed *)
+Definition dedupe_pinned (l : list (Z * Z)) : list (Z * Z) := l.
